@@ -124,6 +124,24 @@ def run(overlay, names, timeout_s, jobs, mem_gb, log_path, extra_args=()):
         return {}, "cargo kani produced no result file (compile error?); log tail:\n" + tail, shown
     with open(out_json) as fh:
         d = json.load(fh)
+    # remember goto binary + unwind bound of every harness of this invocation (a later batch overwrites Kani's own
+    # metadata file); used by cbmc_assignment
+    try:
+        outdir = d["project"]["output_dir"]
+        acc_path = os.path.join(overlay, "harness-meta.json")
+        acc = {}
+        if os.path.exists(acc_path):
+            with open(acc_path) as fh:
+                acc = json.load(fh)
+        for mf in os.listdir(outdir):
+            if mf.endswith(".kani-metadata.json"):
+                with open(os.path.join(outdir, mf)) as fh:
+                    for x in json.load(fh).get("proof_harnesses", []):
+                        acc[x["pretty_name"].split("::")[-1]] = {"goto_file": x["goto_file"], "unwind": (x.get("attributes") or {}).get("unwind_value")}
+        with open(acc_path, "w") as fh:
+            json.dump(acc, fh)
+    except (OSError, KeyError, ValueError):
+        pass
     pdet = {x["harness_id"]: x.get("property_details") for x in d.get("property_details", [])}
     stats = {x["harness_id"]: x.get("cbmc_stats") for x in d.get("cbmc", [])}
     results = {}
@@ -162,18 +180,9 @@ def cbmc_assignment(overlay, name, reasons, timeout_s, mem_gb, log_path):
     (`cbmc --trace --compact-trace` on the goto binary Kani built, same flags Kani uses).  Kani's concrete playback
     parses CBMC's JSON trace in memory and ran the driver out of memory on the larger harnesses; the text trace is
     streamed.  Returns [{kind, check, test}] like concrete_playback()."""
-    out_json = os.path.join(overlay, "kani-results.json")
     try:
-        with open(out_json) as fh:
-            proj = json.load(fh)["project"]
-        outdir = proj["output_dir"]
-        meta = [f for f in os.listdir(outdir) if f.endswith(".kani-metadata.json")]
-        h = None
-        for mf in meta:
-            with open(os.path.join(outdir, mf)) as fh:
-                for x in json.load(fh).get("proof_harnesses", []):
-                    if x["pretty_name"].split("::")[-1] == name.split("::")[-1]:
-                        h = x
+        with open(os.path.join(overlay, "harness-meta.json")) as fh:
+            h = json.load(fh).get(name.split("::")[-1])
         if h is None:
             return []
         binf = h["goto_file"].replace(".symtab.out", ".out")
@@ -203,7 +212,7 @@ def cbmc_assignment(overlay, name, reasons, timeout_s, mem_gb, log_path):
     except (OSError, subprocess.TimeoutExpired):
         props = []
     cmd = ["cbmc"] + CBMC_FLAGS
-    uw = (h.get("attributes") or {}).get("unwind_value")
+    uw = h.get("unwind")
     if uw:
         cmd += ["--unwind", str(uw)]
     cmd += [binf, "--trace", "--compact-trace"]
